@@ -10,6 +10,8 @@ import (
 	"sort"
 	"strconv"
 	"strings"
+	"sync"
+	"time"
 
 	"github.com/deckhouse/deckhouse/pkg/log"
 	corev1 "k8s.io/api/core/v1"
@@ -141,6 +143,7 @@ type bufEntry struct {
 }
 
 type delivery struct {
+	inf      *informer
 	actor    *sched.Actor
 	e        wev
 	fires    bool
@@ -227,6 +230,10 @@ type world struct {
 	running       bool
 	opIdx         int
 	labels        map[string]int
+	deliveryOf    map[*sched.Actor]*delivery
+	from          map[*sched.Actor]string
+	cbKey         map[*sched.Actor]string
+	recMu         sync.Mutex
 }
 
 type kemMonitor interface {
@@ -419,10 +426,23 @@ func (w *world) startInformer(inf *informer) {
 	}
 }
 
-func (w *world) onPark(a *sched.Actor) {
-	switch a.Point {
-	case "ri.getCachedObjects.afterRead":
-		// copy of the cache and reset of the buffer happened in the slice that just ended
+// onArrive applies the model effects of the slice that just ended: the actor ran from point `from`
+// to its current point (or to its end when done).
+func (w *world) onArrive(a *sched.Actor, from string, done bool) {
+	to := a.Point
+	if done {
+		to = "<done>"
+	}
+	if d, ok := w.deliveryOf[a]; ok {
+		w.deliveryArrive(d, from, to, done)
+		return
+	}
+	if done {
+		return
+	}
+	switch to {
+	case "ri.getCachedObjects.betweenCopyAndReset":
+		// the cache was copied in this slice (the buffer lock is held in a correct tree)
 		inf := w.infs[a.Keys[0]+"/"+a.Keys[1]]
 		if inf == nil {
 			return
@@ -432,9 +452,19 @@ func (w *world) onPark(a *sched.Actor) {
 				pv[k] = st
 			}
 		}
+		w.inGco[a] = inf
+	case "ri.getCachedObjects.afterRead":
+		// the buffer reset happened in this slice
+		inf := w.infs[a.Keys[0]+"/"+a.Keys[1]]
+		if inf == nil {
+			return
+		}
+		delete(w.inGco, a)
 		if !inf.enabled {
 			for _, be := range inf.buf {
 				switch {
+				case be.afterCopy[a]:
+					w.drops["snapshot-copy-reset-window"] = append(w.drops["snapshot-copy-reset-window"], be.e)
 				case w.isReader[a]:
 					w.drops["second-reader-drops-buffer"] = append(w.drops["second-reader-drops-buffer"], be.e)
 				case a != w.sync:
@@ -442,6 +472,13 @@ func (w *world) onPark(a *sched.Actor) {
 				}
 			}
 			inf.buf = nil
+		}
+	case "cb.enter":
+		// replay of a buffered event by the unlock: the informer's flag was flipped at the start of the replay
+		if a == w.sync {
+			if inf := w.servingInformer(w.cbKey[a]); inf != nil {
+				inf.enabled = true
+			}
 		}
 	case "mon.EnableKubeEventCb.nextInformer":
 		if inf := w.infs[a.Keys[0]+"/"+a.Keys[1]]; inf != nil {
@@ -451,49 +488,38 @@ func (w *world) onPark(a *sched.Actor) {
 	case "mon.nsAdded.afterStore":
 		w.syncInformers()
 	}
-}
-
-// beforeResume models what the actor does in its next slice.
-func (w *world) beforeResume(a *sched.Actor) {
-	if a == w.sync && (a.Point == "mon.EnableKubeEventCb.beforeFlag" || a.Point == "mon.EnableKubeEventCb.setFlag") {
+	if a == w.sync && (to == "mon.EnableKubeEventCb.setFlag" || from == "mon.EnableKubeEventCb.setFlag") {
+		// the events-enabled flag of the monitor is set in the slice that ends at this point
 		w.monFlag = true
 	}
-	if ns, ok := w.nsOf[a]; ok && a.Point == "mon.nsAdded.afterStore" {
-		for _, k := range w.order {
-			inf := w.infs[k]
-			if inf.dynamic && inf.ns == ns {
-				if w.monFlag {
-					inf.enabled = true
-				} else if w.sync.Point == "mon.EnableKubeEventCb.beforeFlag" || w.sync.Done {
-					if !inf.enabled {
-						w.label("dynamic-ns-missed-by-unlock")
-						w.drops["dynamic-namespace-enable-window"] = append(w.drops["dynamic-namespace-enable-window"], wev{"*", ns + "/*", 0})
-					}
+}
+
+// nsArrive: the namespace-added actor finished: it read the monitor flag in its last slice.
+func (w *world) nsDone(a *sched.Actor, from string) {
+	ns, ok := w.nsOf[a]
+	if !ok || from != "mon.nsAdded.afterStore" {
+		return
+	}
+	for _, k := range w.order {
+		inf := w.infs[k]
+		if inf.dynamic && inf.ns == ns {
+			if w.monFlag {
+				inf.enabled = true
+			} else if w.sync.Point == "mon.EnableKubeEventCb.beforeFlag" || w.sync.Done {
+				if !inf.enabled {
+					w.label("dynamic-ns-missed-by-unlock")
+					w.drops["dynamic-namespace-enable-window"] = append(w.drops["dynamic-namespace-enable-window"], wev{"*", ns + "/*", 0})
 				}
 			}
 		}
 	}
 }
 
-func (w *world) stepDelivery(inf *informer) {
-	d := inf.cur
-	if d == nil {
-		e := inf.fifo[0]
-		inf.fifo = inf.fifo[1:]
-		parts := strings.SplitN(e.key, "/", 2)
-		obj := kit.Obj(parts[0], parts[1], body(e.state))
-		d = &delivery{e: e}
-		d.actor = w.s.Spawn("INF "+inf.key, func() {
-			switch e.typ {
-			case "Added":
-				inf.real.OnAdd(obj, false)
-			case "Modified":
-				inf.real.OnUpdate(obj, obj)
-			case "Deleted":
-				inf.real.OnDelete(obj)
-			}
-		})
-		inf.cur = d
+func (w *world) deliveryArrive(d *delivery, from, to string, done bool) {
+	inf := d.inf
+	e := d.e
+	if from == "" {
+		// first slice: the cache was updated
 		prev, had := inf.cache[e.key]
 		if e.typ == "Deleted" {
 			delete(inf.cache, e.key)
@@ -505,22 +531,136 @@ func (w *world) stepDelivery(inf *informer) {
 		if w.sync.Started && !w.sync.Done {
 			w.label("delivery-while-sync-in-progress")
 		}
-	} else {
-		switch d.actor.Point {
-		case "ri.handleWatchEvent.afterCacheUpdate":
-			// next slice: if the type is listed, the flag is checked and the event buffered in one critical section
-			if contains(w.c.Events, d.e.typ) {
-				d.flagRead, d.flagSeen = inf.enabled, true
-				if !inf.enabled {
-					inf.buf = append(inf.buf, bufEntry{e: d.e})
+	}
+	switch {
+	case to == "ri.handleWatchEvent.beforePut":
+		d.flagRead, d.flagSeen = true, true
+	case to == "ri.handleWatchEvent.beforeAppend":
+		d.flagRead, d.flagSeen = false, true
+	case from == "ri.handleWatchEvent.beforeAppend":
+		// the event was appended to the buffer in this slice
+		if inf.enabled {
+			w.label("append-after-unlock")
+			w.drops["flag-read-append-window"] = append(w.drops["flag-read-append-window"], e)
+		} else {
+			be := bufEntry{e: e, afterCopy: map[*sched.Actor]bool{}}
+			for ga, gi := range w.inGco {
+				if gi == inf {
+					be.afterCopy[ga] = true
+					w.label("append-inside-copy-reset-window")
 				}
+			}
+			inf.buf = append(inf.buf, be)
+		}
+	}
+	if done {
+		inf.cur = nil
+		delete(w.deliveryOf, d.actor)
+	}
+}
+
+// run resumes (or starts) an actor and collects the result of its slice.
+func (w *world) run(a *sched.Actor) {
+	if !a.IsBlocked {
+		w.from[a] = ""
+		if a.Started {
+			w.from[a] = a.Point
+		}
+	}
+	w.collect(a, w.s.StepB(a))
+}
+
+func (w *world) collect(a *sched.Actor, st sched.Status) {
+	if st == sched.Blocked {
+		w.label("actor-blocked-on-lock")
+		return
+	}
+	if a.Panic != "" {
+		panic("actor " + a.Name + " panicked: " + a.Panic)
+	}
+	from := w.from[a]
+	w.onArrive(a, from, st == sched.Done)
+	if st == sched.Done {
+		w.nsDone(a, from)
+	}
+}
+
+// pollBlocked settles actors that were blocked on a lock: each has either arrived at its next point
+// (collected here) or is verifiably still waiting for the lock.
+func (w *world) pollBlocked() {
+	for _, a := range w.allActors() {
+		if a.IsBlocked {
+			if st := w.s.Settle(a); st != sched.Blocked {
+				w.collect(a, st)
 			}
 		}
 	}
-	alive := w.s.Step(d.actor)
-	if !alive {
-		inf.cur = nil
+}
+
+// holderPoints are yield points inside a critical section: an actor parked there holds a lock.
+var holderPoints = map[string]bool{"ri.getCachedObjects.betweenCopyAndReset": true, "ri.handleWatchEvent.beforeAppend": true, "cb.enter": true}
+
+// restrictToHolders: while an actor is blocked on a lock only the lock holders are scheduled, so that at
+// most one actor waits for a lock at a time (which actor gets a contended lock first is not under control).
+func (w *world) restrictToHolders(chs []choice) []choice {
+	if w.anyBlocked() == nil {
+		return chs
 	}
+	var out []choice
+	for _, ch := range chs {
+		var a *sched.Actor
+		switch ch.kind {
+		case "inf":
+			if ch.inf.cur != nil {
+				a = ch.inf.cur.actor
+			}
+		case "sync", "reader", "ns":
+			a = ch.a
+		}
+		if a != nil && a.Started && !a.Done && holderPoints[a.Point] {
+			out = append(out, ch)
+		}
+	}
+	if len(out) == 0 {
+		return chs
+	}
+	return out
+}
+
+func (w *world) allActors() []*sched.Actor {
+	out := []*sched.Actor{w.sync}
+	out = append(out, w.readers...)
+	out = append(out, w.nsActors...)
+	for _, k := range w.order {
+		if d := w.infs[k].cur; d != nil {
+			out = append(out, d.actor)
+		}
+	}
+	return out
+}
+
+func (w *world) stepDelivery(inf *informer) {
+	d := inf.cur
+	if d == nil {
+		e := inf.fifo[0]
+		inf.fifo = inf.fifo[1:]
+		parts := strings.SplitN(e.key, "/", 2)
+		obj := kit.Obj(parts[0], parts[1], body(e.state))
+		d = &delivery{e: e, inf: inf}
+		d.actor = w.s.Spawn("INF "+inf.key, func() {
+			switch e.typ {
+			case "Added":
+				inf.real.OnAdd(obj, false)
+			case "Modified":
+				inf.real.OnUpdate(obj, obj)
+			case "Deleted":
+				inf.real.OnDelete(obj)
+			}
+		})
+		inf.cur = d
+		w.deliveryOf[d.actor] = d
+	}
+	w.run(d.actor)
 }
 
 type choice struct {
@@ -540,35 +680,57 @@ func (w *world) enabledChoices() []choice {
 			out = append(out, choice{kind: "start", inf: inf})
 			continue
 		}
-		if inf.cur != nil || len(inf.fifo) > 0 {
+		if inf.cur != nil {
+			if !inf.cur.actor.IsBlocked {
+				out = append(out, choice{kind: "inf", inf: inf})
+			}
+		} else if len(inf.fifo) > 0 {
 			out = append(out, choice{kind: "inf", inf: inf})
 		}
 	}
-	if !w.sync.Done {
+	if !w.sync.Done && !w.sync.IsBlocked {
 		out = append(out, choice{kind: "sync", a: w.sync})
 	}
 	for _, r := range w.readers {
-		if !r.Done {
+		if !r.Done && !r.IsBlocked {
 			out = append(out, choice{kind: "reader", a: r})
 		}
 	}
 	for _, n := range w.nsActors {
-		if !n.Done {
+		if !n.Done && !n.IsBlocked {
 			out = append(out, choice{kind: "ns", a: n})
 		}
 	}
 	return out
 }
 
-func (w *world) stepActor(a *sched.Actor) {
-	if a.Started {
-		w.beforeResume(a)
+// waitAnyBlocked waits until one of the blocked actors arrives at its next point (it was released by
+// the slice that just ended and needs a moment to get there).
+func (w *world) waitAnyBlocked(d time.Duration) bool {
+	deadline := time.Now().Add(d)
+	for {
+		for _, a := range w.allActors() {
+			if a.IsBlocked {
+				if st := w.s.Poll(a); st != sched.Blocked {
+					w.collect(a, st)
+					return true
+				}
+			}
+		}
+		if time.Now().After(deadline) {
+			return false
+		}
+		time.Sleep(20 * time.Microsecond)
 	}
-	if w.s.Step(a) {
-		w.onPark(a)
-	} else if a.Panic != "" {
-		panic("actor " + a.Name + " panicked: " + a.Panic)
+}
+
+func (w *world) anyBlocked() *sched.Actor {
+	for _, a := range w.allActors() {
+		if a.IsBlocked {
+			return a
+		}
 	}
+	return nil
 }
 
 func (w *world) perform(ch choice) error {
@@ -581,19 +743,19 @@ func (w *world) perform(ch choice) error {
 		w.startInformer(ch.inf)
 	case "inf":
 		w.stepDelivery(ch.inf)
-		if ch.inf.cur != nil && ch.inf.cur.actor.Panic != "" {
-			panic("delivery panicked: " + ch.inf.cur.actor.Panic)
-		}
 	default:
-		w.stepActor(ch.a)
+		w.run(ch.a)
 	}
 	return nil
 }
+
+var DebugT [4]time.Duration
 
 // Run executes one case and returns every violation found, tagged by kind.
 func Run(c Case) (Result, error) {
 	res := Result{}
 	w := &world{c: c, cluster: map[string]int{}, labelled: map[string]bool{}, infs: map[string]*informer{}, drops: map[string][]wev{},
+		deliveryOf: map[*sched.Actor]*delivery{}, from: map[*sched.Actor]string{}, cbKey: map[*sched.Actor]string{},
 		pending: map[*sched.Actor]map[string]int{}, inGco: map[*sched.Actor]*informer{}, isReader: map[*sched.Actor]bool{}, nsOf: map[*sched.Actor]string{}, labels: map[string]int{}}
 	w.fc = kit.NewCluster(allNs...)
 	for _, o := range c.Initial {
@@ -642,7 +804,7 @@ func Run(c Case) (Result, error) {
 	w.s = sched.New()
 	defer w.s.Close()
 	mon := kem.NewMonitor(context.Background(), w.fc.Client, kit.NopMetrics{}, cfg, func(e kemtypes.KubeEvent) {
-		r := recorded{unlocked: w.unlockEntered}
+		r := recorded{}
 		if len(e.WatchEvents) == 1 {
 			r.typ = string(e.WatchEvents[0])
 		}
@@ -654,7 +816,17 @@ func Run(c Case) (Result, error) {
 			}
 			r.proj = entryProj(c, o)
 		}
+		// the hand-over point of an Event is a scheduling point: whoever delivers may be overtaken here
+		if self := w.s.Self(); self != nil {
+			w.recMu.Lock()
+			w.cbKey[self] = r.key
+			w.recMu.Unlock()
+			w.s.Yield("cb.enter")
+		}
+		w.recMu.Lock()
+		r.unlocked = w.unlockEntered
 		w.rec = append(w.rec, r)
+		w.recMu.Unlock()
 	}, log.NewNop())
 	if err := mon.CreateInformers(); err != nil {
 		return res, fmt.Errorf("harness: CreateInformers: %v", err)
@@ -680,7 +852,9 @@ func Run(c Case) (Result, error) {
 		for i := 0; i < c.HookSteps; i++ {
 			w.s.Yield("harness.syncHookRunning")
 		}
+		w.recMu.Lock()
 		w.unlockEntered = true
+		w.recMu.Unlock()
 		mon.EnableKubeEventCb()
 	})
 	for i, n := range c.Readers {
@@ -696,15 +870,23 @@ func Run(c Case) (Result, error) {
 		w.readers = append(w.readers, ra)
 	}
 
+	tSched := time.Now()
 	// ---- generated schedule ----
 	for _, p := range c.Picks {
-		chs := w.enabledChoices()
+		w.pollBlocked()
+		chs := w.restrictToHolders(w.enabledChoices())
 		if len(chs) == 0 {
+			if w.anyBlocked() != nil {
+				if !w.waitAnyBlocked(2 * time.Second) {
+					break
+				}
+				continue
+			}
 			break
 		}
 		pool := chs
 		if p.Bias {
-			// while some actor sits inside a window, favour the steps that can race with it
+			// while SYNC is in progress, favour the steps that can race with it
 			var fav []choice
 			inWindow := w.sync.Started && !w.sync.Done
 			for _, ch := range chs {
@@ -720,10 +902,23 @@ func Run(c Case) (Result, error) {
 			return res, fmt.Errorf("harness: %v", err)
 		}
 	}
+	DebugT[0] += time.Since(tSched)
+	tDrain := time.Now()
 	// ---- drain deterministically: finish SYNC and readers, apply remaining ops, start and drain informers ----
+	stuck := 0
 	for guard := 0; guard < 100000; guard++ {
-		chs := w.enabledChoices()
+		w.pollBlocked()
+		chs := w.restrictToHolders(w.enabledChoices())
 		if len(chs) == 0 {
+			if b := w.anyBlocked(); b != nil {
+				if !w.waitAnyBlocked(2 * time.Second) {
+					stuck++
+					if stuck > 2 {
+						return res, fmt.Errorf("harness: actor %s stays blocked on a lock although every other actor has finished or is blocked too (deadlock in the code under test?)", b.Name)
+					}
+				}
+				continue
+			}
 			break
 		}
 		// prefer actors over new cluster operations so that windows close first
@@ -738,6 +933,7 @@ func Run(c Case) (Result, error) {
 			return res, fmt.Errorf("harness: %v", err)
 		}
 	}
+	DebugT[1] += time.Since(tDrain)
 	// final snapshot by the test goroutine (not an actor: yields pass through)
 	final := mon.Snapshot()
 	res.Violations = append(res.Violations, w.checkC01()...)
@@ -869,6 +1065,10 @@ func (w *world) checkC01() []Violation {
 					kinds[kind] = true
 				}
 			}
+		}
+		if inf.dynamic && !inf.enabled && w.sync.Done {
+			// the unlock finished but this informer of a namespace that appeared meanwhile was never unlocked
+			kinds["dynamic-namespace-enable-window"] = true
 		}
 		for k := range kinds {
 			v.Losses = append(v.Losses, k)
